@@ -81,6 +81,16 @@ CHECKS = {
         text="Each generated (schema, generator) is rendered in a fresh process under PYTHONHASHSEED=0, in a fresh process under another seed, at the end of a generated history of parse/generate operations in a long-lived worker, again on the re-parsed schema and twice more on the same FcpV2 object; all {path: contents} maps must be identical (documented C++ stamp line blanked).",
         note="Hash seeds are sampled (3 per schema). Worker processes are real interpreters started with the chosen PYTHONHASHSEED.",
         ref="4/C17"),
+    "C06": dict(
+        technique="differential testing of generated programs: generated C compiled with gcc and driven through stdin/stdout against the reference layout packing",
+        text="Hundreds of generated flat CAN schemas are rendered by fcp_can_c from the working tree, compiled with a generated driver and fed thousands of boundary-biased values; encode frames (id, dlc, data) and decoded values are compared with the reference layout packing.",
+        note="Trusted: vlib/reflayout.py, gcc. Names are back-end safe; NaN excluded; -0.0 compared numerically on decode.",
+        ref="4/C06"),
+    "C19": dict(
+        technique="model-based testing over generated call histories: compiled scheduler vs a 10-line reference automaton, one process per history",
+        text="Generated devices/periods and generated histories of advance(delta)/set(value) steps (deltas around P, repeated timestamps, 2^32 wrap-around) are run against the compiled generated scheduler in a fresh process per history; the frames handed to the callback after every step must equal the reference automaton's output and the reference encoding of the current values.",
+        note="Trusted: the reference automaton (from the statement), reflayout packing, gcc.",
+        ref="4/C19"),
 }
 
 PENDING = {}
